@@ -312,6 +312,23 @@ func (h *H) Compact(mode string, i, j int) string {
 	if i < 0 || j > len(files) || j-i < 1 {
 		return "ok" // nothing to do for this layout
 	}
+	// a compaction group holds whole generations, as the planners' groups do: the files of
+	// one generation (several after a compaction rolled over, or after a crash left an input
+	// next to the output) are never split — the output's name is derived from the group's
+	// highest generation and sequence and would collide with a file left outside
+	gen := func(path string) int {
+		g, _, err := tsm1.DefaultParseFileName(path)
+		if err != nil {
+			return -1
+		}
+		return g
+	}
+	for i > 0 && gen(files[i-1]) == gen(files[i]) {
+		i--
+	}
+	for j < len(files) && gen(files[j]) == gen(files[j-1]) {
+		j++
+	}
 	group := files[i:j]
 	var out []string
 	var err error
